@@ -1244,10 +1244,44 @@ def sec_realign(ck, T):
                         tol_t = 1e-6
                     got = res[..., t].reshape(-1)[sel]
                     if sel.any() and not close(got, want, tol_t):
+                        bad = np.abs(got - want) > tol_t * (1 + np.abs(want))
+                        zsrc = sv[2, sel][bad]
+                        if time_interp and np.all(np.abs(zsrc) < 1e-6):
+                            # every wrong voxel samples the first slice plane (scanner z = 0 up to rounding): the slice-time
+                            # correction jumps there (see the interp_slice_times oracle below)
+                            ck.fail("realign4d/resample4d/time-interp/scanner-z-at-first-slice",
+                                    "resample4d with time interpolation: voxels whose scanner z coordinate is 0 up to rounding (%.3g) are sampled at the wrong time (scan %d, max err %.3g)"
+                                    % (float(np.min(zsrc)), t, np.max(np.abs(got - want))), dict(rep, scan=t))
+                            break
                         ck.fail("realign4d/resample4d/%s/%s" % (kind, "time-interp" if time_interp else "no-time-interp"),
                                 "resample4d with per-scan %s on a non-identity grid: scan %d is not the source sampled at inv(affine).T.affine.v (max %.3g)"
                                 % (kind, t, np.max(np.abs(got - want))), dict(rep, scan=t))
                         break
+    # slice-time model used by the time interpolation: interp_slice_times(Z, slice_times, tr) is the acquisition time of
+    # (fractional) slice Z within a repetition; beyond the volume the acquisition repeats every tr, so the function must
+    # return slice_times[k] at slice k, be continuous in Z and satisfy f(Z + nslices) = f(Z) + tr
+    nst = ck.n(20, 200)
+    for it in range(nst):
+        ns = int(rng.integers(2, 9))
+        tr = float(rng.choice([1.0, 2.0, 2.5, 3.0, float(ns)]))
+        st = np.sort(rng.integers(0, 64, ns)) / 64.0 * tr if it % 4 else np.zeros(ns)
+        rep = {"entry": "interp_slice_times", "slice_times": st.tolist(), "tr": tr}
+        ck.count(("slice-times", it, ns, tr), bucket="realign4d:interp_slice_times")
+        f = lambda Z: np.asarray(gr.interp_slice_times(np.asarray(Z, float), st, tr))
+        k = np.arange(ns)
+        if not close(f(k), st, 1e-12):
+            ck.fail("realign4d/interp_slice_times/in-volume-slice-time", "interp_slice_times at slice k is not slice_times[k]", rep)
+        Zs = np.concatenate([np.arange(-ns, 2 * ns + 1), rng.uniform(-ns, 2 * ns, 6)])
+        periodic = close(f(Zs + ns), f(Zs) + tr, 1e-9)
+        cont = close(f(np.arange(-ns, 2 * ns + 1) - 1e-9), f(np.arange(-ns, 2 * ns + 1)), 1e-6)
+        inside = np.arange(1, ns)
+        cont_inside = close(f(inside - 1e-9), f(inside), 1e-6)
+        if not cont_inside:
+            ck.fail("realign4d/interp_slice_times/discontinuous-inside-volume", "interp_slice_times jumps at an interior slice", rep)
+        elif not (periodic and cont):
+            ck.fail("realign4d/interp_slice_times/not-tr-periodic-outside-volume",
+                    "interp_slice_times(Z) outside [0, nslices): f(Z+nslices) = f(Z)+tr %s, continuity at the volume border %s (e.g. f(-1e-9)=%.6g, f(0)=%.6g)"
+                    % ("holds" if periodic else "fails", "holds" if cont else "fails", float(f([-1e-9])[0]), float(f([0.0])[0])), rep)
     # Realign4dAlgorithm.resample(t) on the working grid: identity transforms reproduce the input at the grid points;
     # a world translation by an integer number of voxels looks the shifted voxel up (interior points)
     nra = ck.n(6, 30)
